@@ -80,7 +80,7 @@ def check_c18(tier):
                               {"component": "purity", "ser": c["ser"], "mode": c["mode"], "sched": c["sched"], "why": w})
     for c in list(cases.values())[:2]:
         rep.sample({"ser": c.get("ser"), "mode": c.get("mode"), "sched": c.get("sched"), "calls": len(c["calls"]), "ref_len": len(c["ref"])})
-    good = [c for c in cases.values() if c["kind"] == "hist" and len(c["ref"]) > 4][0]
+    good = [c for c in cases.values() if c["case"] not in rep.rejected_ids and c["kind"] == "hist" and len(c["ref"]) > 4][0]
     b1 = json.loads(json.dumps(good)); b1["case"] = "neg1"; b1["calls"][0]["out"][2] ^= 1
     b2 = {"case": "neg2", "kind": "race", "site": "x", "calls": [], "ref": [], "mutated": False, "sharedcap": False}
     np_ = os.path.join(wd, "neg.ndjson")
